@@ -1,7 +1,9 @@
 #!/bin/bash
 # Re-evaluates every recorded seeded change with the current engine and harnesses (quick tier, private worktrees);
-# prints one line per change. Does not modify the meta.json files.
+# prints one line per change. Does not modify the meta.json files.   usage: reeval_all.sh [stream streams]
 cd /verif
+s=${1:-0}; n=${2:-1}; k=0
 for d in $(ls seeded | grep -E '^C[0-9]+-[0-9]+$'); do
-  tools/eval_seeded.sh $d quick | cut -c1-200
+  if [ $((k % n)) -eq $s ]; then tools/eval_seeded.sh $d quick | cut -c1-200; fi
+  k=$((k+1))
 done
